@@ -1010,10 +1010,10 @@ Qed.
 
 (* ------------------------------------------------------------------ root_inv_decomposition *)
 Lemma root_inv_decomposition_eq st fuel i args kw :
-  root_inv_decomposition K st fuel i args kw =
-  root_inv_body K (match fuel with
+  root_inv_decomposition K fl st fuel i args kw =
+  root_inv_body K fl (match fuel with
                    | O => fun _ _ _ => raise ValueError
-                   | S f => root_inv_decomposition K st f
+                   | S f => root_inv_decomposition K fl st f
                    end) st fuel i args kw.
 Proof. destruct fuel; reflexivity. Qed.
 
@@ -1056,7 +1056,7 @@ Qed.
 Lemma sound_root_inv_body st fuel (kc : nat -> list pyv -> kwargs -> H Val) h0 i o args kw :
   (forall h1 c oc a k, get c h1 = Some oc -> sound h1 (kc c a k) (valid ARootInv (o_mat K oc))) ->
   get i h0 = Some o ->
-  sound h0 (root_inv_body K kc st fuel i args kw) (valid ARootInv (o_mat K o)).
+  sound h0 (root_inv_body K fl kc st fuel i args kw) (valid ARootInv (o_mat K o)).
 Proof.
   intros Skc G. unfold root_inv_body.
   apply (sound_with_obj_wf h0 i o _ _ G); intros h1 o' E1 I1 G1 St W.
@@ -1069,13 +1069,13 @@ Proof.
   unfold key_of. simpl name_of_opt.
   eapply sound_weaken; [|intros v Hv; apply (entry1_intro _ _ _ _ (aspects_rootinv args kw)); exact Hv].
   sstep; [apply sound_lift with (Q := fun _ => True); auto|]. intros p _.
-  sstep; [apply (sound_root_inv_base st fuel h1 i o' _ _ G1 W)|].
+  sstep; [destruct (fl_kron_rootinv_noargs fl); apply (sound_root_inv_base st fuel h1 i o' _ _ G1 W)|].
   sstep; [apply (sound_mapM h1 _ (fun m => valid ARootInv m) l ms F); intros c oc Gc; apply (Skc h1 c oc _ _ Gc)|].
   intros rs Hrs. sstep. eapply (ko_rootinv_kron KO); eauto.
 Qed.
 
 Lemma sound_root_inv st fuel : forall h0 i o args kw, get i h0 = Some o ->
-  sound h0 (root_inv_decomposition K st fuel i args kw) (valid ARootInv (o_mat K o)).
+  sound h0 (root_inv_decomposition K fl st fuel i args kw) (valid ARootInv (o_mat K o)).
 Proof.
   induction fuel as [|f IH]; intros h0 i o args kw G; rewrite root_inv_decomposition_eq;
     apply sound_root_inv_body; auto.
@@ -1334,7 +1334,7 @@ Proof. unfold bind. intros ->. reflexivity. Qed.
 Lemma deriv_roots_step st i d kids res_ h o :
   Inv h -> get i h = Some o ->
   allocs_wf h (map (fun x => mk_obj K x (no_mat K x)) kids ++ [mk_obj K res_ (deriv_mat K d (o_mat K o))]) ->
-  let r := deriv_roots K st i d kids res_ h in
+  let r := deriv_roots K fl st i d kids res_ h in
   Inv (snd r) /\ ext h (snd r) /\
   res_ok (fst r) (fun x => roots_ok (o_mat K o) x /\
                            exists oj, get (fst x) (snd r) = Some oj /\ o_mat K oj = deriv_mat K d (o_mat K o)).
@@ -1478,7 +1478,7 @@ Definition event_ok (s : state) (e : event) : Prop :=
   | EQuery i q => (exists o, get i h = Some o) /\ query_ok i q h
   | EDerive i d kids res_ =>
       (exists o, get i h = Some o) /\ news_of h i d kids res_ /\
-      res_ok (fst (deriv_roots K st i d kids res_ h)) (transplant_ok d)
+      res_ok (fst (deriv_roots K fl st i d kids res_ h)) (transplant_ok d)
   | ESeedSymeig i | EClear i => exists o, get i h = Some o
   | ESet _ => True
   end.
@@ -1502,7 +1502,7 @@ Proof.
   - (* derivation *)
     destruct Ok_ as ((o & G) & Wn & Tk). unfold run_deriv.
     destruct (deriv_roots_step st i d kids res_ h o I G (Wn o G)) as (I1 & E1 & R1).
-    unfold bind. destruct (deriv_roots K st i d kids res_ h) as [[x|e] h1]; cbn [fst snd] in *.
+    unfold bind. destruct (deriv_roots K fl st i d kids res_ h) as [[x|e] h1]; cbn [fst snd] in *.
     + destruct R1 as (Rk & oj & Gj & Emj).
       destruct (deriv_finish_step st d x h1 (o_mat K o) oj I1 Gj Emj Rk Tk) as (I2 & E2).
       destruct (deriv_finish K fl st d x h1) as [r h2]. cbn [fst snd] in *.
